@@ -232,7 +232,7 @@ func (g *G) sniffBytes() ([]byte, string) {
 			`{"bomFormat":"CycloneDX","specVersion":"1.3","specVersion":"1.5"}`, `{"BOMFORMAT":"CycloneDX","SPECVERSION":"1.4"}`,
 			`{"SpdxVersion":"SPDX-2.3"}`, `{"spdxVersion":"SPDX-2.2","spdxVersion":"SPDX-2.3"}`,
 			`{"metadata":{"bomFormat":"CycloneDX","specVersion":"1.4"}}`, `[{"bomFormat":"CycloneDX","specVersion":"1.4"}]`,
-			`"SPDX-2.3"`, `null`, `{}`, `[]`, `12`, `{"bomFormat":"CycloneDX","specVersion":"1.4"} trailing`,
+			`"SPDX-2.3"`, `null`, ` null` + "\n", "\n\tnull", `null {"bomFormat":"CycloneDX","specVersion":"1.4"}`, `{}`, `[]`, `12`, `true`, `{"bomFormat":"CycloneDX","specVersion":"1.4"} trailing`,
 			`{"bomFormat":"CycloneDX","specVersion":"1.4"}{"spdxVersion":"SPDX-2.3"}`,
 		})), "json-fault"
 	case 4: // truncated / broken JSON containing markers
